@@ -324,6 +324,75 @@ contract("C22", "approx_fprime[2-point]/exact-on-affine", samples=3)(_fprime("2-
 contract("C22", "approx_fprime[3-point]/exact-on-quadratic", samples=3)(_fprime("3-point"))
 
 
+@contract("C22", "non-finite residuals are never reported as converged", samples=0, replayable=False, timeout=30)
+def c_non_finite(k):
+    """IEEE semantics the real-arithmetic contracts cannot see: a comparison with NaN is false whichever way it is
+    written, so `error < 1` and `not (error >= 1)` differ exactly there.  The helpers are executed natively on residual
+    functions that are NaN / +-inf at the initial guess, from a later iterate on, or in one component only: fsolve must
+    report success False and warn; the fixed-point helpers must raise (they return only points meeting the tolerance)."""
+    if not k.sym:
+        raise K.Reject("decided by native execution")
+    import contextlib
+    import io
+    import warnings
+
+    k.covers(fs.fsolve, dsv.fixed_point_iteration, dsv.fixed_point_iteration_with_momentum)
+    with K.npshim.active(False), np.errstate(all="ignore"):
+        for bad_name, bad in (("nan", np.nan), ("+inf", np.inf), ("-inf", -np.inf)):
+            for n in (1, 3):
+                for comp in ("all components", "one component"):
+                    for start in (0, 1, 3):  # the call of the residual function from which on it is non-finite
+                        for jac in ("exact", "numerical"):
+                            calls = [0]
+
+                            def fun(x, calls=calls, n=n, comp=comp, start=start, bad=bad):
+                                f = x**3 + 2.0 * x - 1.0
+                                calls[0] += 1
+                                if calls[0] > start:
+                                    f = f.copy()
+                                    if comp == "one component":
+                                        f[-1] = bad
+                                    else:
+                                        f[:] = bad
+                                return f
+
+                            kw = dict(jac=(lambda x: np.diag(3.0 * x**2 + 2.0)) if jac == "exact" else None)
+                            opts = SolverOptions(newton_max_iter=6, numerical_jacobian_method="2-point")
+                            with warnings.catch_warnings(record=True) as w:
+                                warnings.simplefilter("always")
+                                try:
+                                    res = fs.fsolve(fun, np.full(n, 5.0), options=opts, **kw)
+                                    ok = (not bool(res.success)) and any("not converged" in str(x.message) for x in w)
+                                    how = f"success={res.success}, error={res.error}, warnings={len(w)}"
+                                except Exception as e:  # noqa: BLE001  (raising is not silent either)
+                                    ok, how = True, f"raised {type(e).__name__}"
+                            if jac == "numerical" and start > 0:
+                                continue  # the finite-difference Jacobian calls fun itself: `start` does not address an iterate
+                            k.prove(f"fsolve[{jac}, n={n}]: residual {bad_name} in {comp} from call {start} on => success False and a warning", ok, show=how)
+                    for which, fp in (("plain", dsv.fixed_point_iteration), ("momentum", dsv.fixed_point_iteration_with_momentum)):
+                        for start in (0, 2):
+                            calls = [0]
+
+                            def g(x, calls=calls, comp=comp, start=start, bad=bad):
+                                y = 0.5 * np.cos(x)
+                                calls[0] += 1
+                                if calls[0] > start:
+                                    y = y.copy()
+                                    if comp == "one component":
+                                        y[-1] = bad
+                                    else:
+                                        y[:] = bad
+                                return y
+
+                            try:
+                                with contextlib.redirect_stdout(io.StringIO()):  # the momentum helper prints before it raises
+                                    x, nit, err = fp(g, np.full(n, 0.3), max_iter=8)
+                                ok, how = False, f"returned x={x}, error={err}"
+                            except (ValueError, RuntimeError) as e:
+                                ok, how = True, f"raised {type(e).__name__}: {str(e)[:60]}"
+                            k.prove(f"fixed_point_iteration[{which}, n={n}]: map value {bad_name} in {comp} from call {start} on => raises", ok, show=how)
+
+
 @bounded("C22", "approx_fprime[cs]/accuracy")
 def b_cs(tier, seed):
     """complex-step derivative against exact derivatives on polynomial/trigonometric families (bounded)."""
